@@ -140,7 +140,10 @@ def mk_portfolio(D, kind):
         late = shapes.mk_market(D, 'late', nB, 0, 'q', wacc=D('wacc_late', lo=0))
         late.start, late.end = h(1), h(3)
         ob = shapes.mk_orderbook(D, 'ob', nB, mk_grid('h'), ((0, 2, 2.0), (1, 4, -1.5), (3, 4, 1.0)), wacc=D('wacc_ob', lo=0))
-        return eao.portfolio.Portfolio([m, late, ob])
+        # a capacity given directly as a numpy array with one value per step (grids with four steps; other grids: rejected with and without history)
+        caps = np.array([D('arr_cap%d' % k, lo=0) for k in range(4)], dtype=object if D.symbolic else float)
+        arr = eao.assets.SimpleContract(name='arr', nodes=nB, price='q', min_cap=0., max_cap=caps, extra_costs=D('arr_ec', lo=0))
+        return eao.portfolio.Portfolio([m, late, ob, arr])
     if kind == 'wrappers':
         base = shapes.mk_storage(D, 'base', nA, eff=0.75)
         sc = eao.assets.ScaledAsset(name='sc', base_asset=base, min_scale=0., max_scale=D('smax', lo=0), norm_scale=2.0, fix_costs=D('fixc', lo=0),
@@ -293,8 +296,9 @@ def scenario_nogrid(D, pfk, pf, grids, final):
     if final == 'h_nogrid_assets':
         a_fresh = [a.setup_optim_problem(pr, gf) for a in fresh.assets]
         a_hist = []
-        for a in pf.assets:
+        for a in pf.assets:           # the grid is set on ALL assets first (they share the grid object) ...
             a.set_timegrid(g)
+        for a in pf.assets:           # ... then every asset is set up on its own without the grid argument
             a_hist.append(a.setup_optim_problem(pr))
         return Stacked(a_hist), Stacked(a_fresh)
     # portfolio, with the first two steps fixed to given values
